@@ -27,6 +27,35 @@ def alpha(eq):
     return "".join(out)
 
 
+def is_einsum(s):
+    return isinstance(s, str) and ("," in s or "->" in s) and EINSUM.match(s) and len(s) <= 40
+
+
+def mentions_batch(test):
+    """`self.batch`, `t.batch`, `batch`, `not x.batch`, `x.batch and ...` — any test that reads a batch flag"""
+    for n in ast.walk(test):
+        if isinstance(n, ast.Attribute) and n.attr == "batch":
+            return True
+        if isinstance(n, ast.Name) and n.id == "batch":
+            return True
+    return False
+
+
+def einsum_literals(stmts):
+    """einsum strings below a statement list, in source order (same order as the visitor)"""
+    out = []
+
+    def rec(n):
+        if isinstance(n, ast.Constant) and is_einsum(n.value):
+            out.append(n.value)
+        for c in ast.iter_child_nodes(n):
+            rec(c)
+
+    for st in stmts:
+        rec(st)
+    return out
+
+
 def sanitize(name):
     return re.sub(r"[^A-Za-z0-9]", "_", name)
 
@@ -41,7 +70,27 @@ class V(ast.NodeVisitor):
         return ".".join([self.mod] + self.stack[:2]) if self.stack else self.mod + ".<module>"
 
     def entry(self):
-        return self.table.setdefault(self.cur(), {"einsum": [], "floats": [], "batch_guard": False})
+        return self.table.setdefault(self.cur(), {"einsum": [], "floats": [], "batch_guard": False,
+                                                  "pairs": [], "unpaired": []})
+
+    def visit_If(self, node):
+        # `if <...batch...>: A else: B` — the einsum strings of A are the batched variants of those of B,
+        # paired by position.  Recorded only for the outermost such `if` (an inner one is part of A or B already).
+        if self.stack and mentions_batch(node.test) and not getattr(self, "_in_batch_if", False):
+            a, b = einsum_literals(node.body), einsum_literals(node.orelse)
+            if isinstance(node.test, ast.UnaryOp) and isinstance(node.test.op, ast.Not):
+                a, b = b, a
+            e = self.entry()
+            if a or b:
+                if len(a) == len(b):
+                    e["pairs"] += [(alpha(x), alpha(y), x, y, node.lineno) for x, y in zip(a, b)]
+                else:
+                    e["unpaired"] += [(x, "batched", node.lineno) for x in a] + [(y, "plain", node.lineno) for y in b]
+            self._in_batch_if = True
+            self.generic_visit(node)
+            self._in_batch_if = False
+        else:
+            self.generic_visit(node)
 
     def visit_ClassDef(self, node):
         self.stack.append(node.name); self.generic_visit(node); self.stack.pop()
@@ -77,7 +126,7 @@ def collect():
         try:
             tree = ast.parse(open(f).read())
         except SyntaxError:
-            table[mod + ".<syntax-error>"] = {"einsum": [], "floats": [], "batch_guard": False}
+            table[mod + ".<syntax-error>"] = {"einsum": [], "floats": [], "batch_guard": False, "pairs": [], "unpaired": []}
             continue
         v = V(mod)
         v.visit(tree)
@@ -104,6 +153,18 @@ def render(table):
             out.append("def floats_%s : List (Int × Nat) := [%s]" % (s, ", ".join("(%d, %d)" % (x.numerator, x.denominator) for x in fr)))
         if e["batch_guard"]:
             guards.append(name)
+    # the (batched, plain) einsum pairs found by the `if …batch…: … else: …` pattern, alpha-normalised like
+    # the `einsum_*` lists, and the einsum strings of such an `if` that have no counterpart in the other branch
+    out.append("")
+    pairs = [(name, p) for name in sorted(table) for p in table[name]["pairs"]]
+    out.append("def batchPairs : List (String × String × String) := [%s]" % ", ".join(
+        "(%s, %s, %s)" % (lean_str(n), lean_str(p[0]), lean_str(p[1])) for n, p in pairs))
+    out.append("/-- the same pairs as they are spelled in the source (function, line of the `if`, batched, plain) -/")
+    out.append("def batchPairsOrig : List (String × Nat × String × String) := [%s]" % ", ".join(
+        "(%s, %d, %s, %s)" % (lean_str(n), p[4], lean_str(p[2]), lean_str(p[3])) for n, p in pairs))
+    unp = [(name, u) for name in sorted(table) for u in table[name]["unpaired"]]
+    out.append("def batchUnpaired : List (String × Nat × String × String) := [%s]" % ", ".join(
+        "(%s, %d, %s, %s)" % (lean_str(n), u[2], lean_str(u[1]), lean_str(u[0])) for n, u in unp))
     out.append("")
     out.append("def batchGuards : List String := [%s]" % ", ".join(lean_str(x) for x in sorted(guards)))
     out += ["", "end TN.Generated", ""]
